@@ -807,12 +807,15 @@ func (r *collection) registerDescriptor(descriptor *Descriptor) error {
 func (r *collection) rollback(mark int) {
 	for i := len(r.allDescriptors) - 1; i >= mark; i-- {
 		descriptor := r.allDescriptors[i]
+		// A descriptor with a group and a key of its own (a result object field
+		// tagged with both) is filed under services, like registerDescriptor does
 		if descriptor.Group != "" {
 			groupKey := GroupKey{Type: descriptor.Type, Group: descriptor.Group}
 			if members := r.groups[groupKey]; len(members) > 0 && members[len(members)-1] == descriptor {
 				r.groups[groupKey] = members[:len(members)-1]
 			}
-		} else if key := (TypeKey{Type: descriptor.Type, Key: descriptor.Key}); r.services[key] == descriptor {
+		}
+		if key := (TypeKey{Type: descriptor.Type, Key: descriptor.Key}); r.services[key] == descriptor {
 			delete(r.services, key)
 		}
 	}
